@@ -19,10 +19,16 @@ var ErrConfigFailure = gerror.FactoryOf(&gerror.GError{
 	Message: "failed to read value",
 })
 
+// cacheKey identifies a memoized request: the key path and the requested result type.
+type cacheKey struct {
+	key string
+	typ reflect.Type
+}
+
 // Config is the base configuration object that should be supplied to the generic GetX functions.
 type Config struct {
 	dimensions map[reflect.Type]genum.Enum
-	cached     *xsync.MapOf[string, any]
+	cached     *xsync.MapOf[cacheKey, any]
 	data       map[string]any
 }
 
@@ -63,7 +69,8 @@ func GetOrDefault[T any](cfg *Config, key string, defaultV T) T {
 func getFromCache[T any](cfg *Config, key string) (T, error) {
 	var err error
 	var r T
-	k := key + fmt.Sprintf("%T", r) // add type to key to prevent complicated conversions.
+	// add type to key to prevent complicated conversions.
+	k := cacheKey{key: key, typ: reflect.TypeFor[T]()}
 	v, _ := cfg.cached.Compute(k, func(oldValue any, loaded bool) (newValue any, shouldDelete bool) {
 		if loaded {
 			return oldValue, false
